@@ -8,6 +8,7 @@ import (
 	"io"
 	"log"
 	"os"
+	"slices"
 	"strconv"
 )
 
@@ -117,11 +118,13 @@ func (l defaultLogger) With(fs ...ContextField) Logger {
 	for _, f := range fs {
 		e = f(e)
 	}
+	// The receiver may be shared by several goroutines (every transaction derives its logger
+	// from the WAF's): clip it so that appending never writes into its spare capacity.
 	return defaultLogger{
 		printer:       l.printer,
 		factory:       l.factory,
 		level:         l.level,
-		defaultFields: append(l.defaultFields, e.(*defaultEvent).fields...),
+		defaultFields: append(slices.Clip(l.defaultFields), e.(*defaultEvent).fields...),
 	}
 }
 
@@ -130,7 +133,7 @@ func (l defaultLogger) Trace() Event {
 		return noopEvent{}
 	}
 
-	return &defaultEvent{printer: l.printer, level: LevelTrace, fields: l.defaultFields}
+	return &defaultEvent{printer: l.printer, level: LevelTrace, fields: slices.Clip(l.defaultFields)}
 }
 
 func (l defaultLogger) Debug() Event {
@@ -138,7 +141,7 @@ func (l defaultLogger) Debug() Event {
 		return noopEvent{}
 	}
 
-	return &defaultEvent{printer: l.printer, level: LevelDebug, fields: l.defaultFields}
+	return &defaultEvent{printer: l.printer, level: LevelDebug, fields: slices.Clip(l.defaultFields)}
 }
 
 func (l defaultLogger) Info() Event {
@@ -146,7 +149,7 @@ func (l defaultLogger) Info() Event {
 		return noopEvent{}
 	}
 
-	return &defaultEvent{printer: l.printer, level: LevelInfo, fields: l.defaultFields}
+	return &defaultEvent{printer: l.printer, level: LevelInfo, fields: slices.Clip(l.defaultFields)}
 }
 
 func (l defaultLogger) Warn() Event {
@@ -154,7 +157,7 @@ func (l defaultLogger) Warn() Event {
 		return noopEvent{}
 	}
 
-	return &defaultEvent{printer: l.printer, level: LevelWarn, fields: l.defaultFields}
+	return &defaultEvent{printer: l.printer, level: LevelWarn, fields: slices.Clip(l.defaultFields)}
 }
 
 func (l defaultLogger) Error() Event {
@@ -162,7 +165,7 @@ func (l defaultLogger) Error() Event {
 		return noopEvent{}
 	}
 
-	return &defaultEvent{printer: l.printer, level: LevelError, fields: l.defaultFields}
+	return &defaultEvent{printer: l.printer, level: LevelError, fields: slices.Clip(l.defaultFields)}
 }
 
 // Default returns a default logger that writes to stderr.
